@@ -31,7 +31,15 @@ def _py_req(case):
     if form == "single":
         return gens.py_outcome(case["req"])
     if form == "iter":
-        return [gens.py_outcome(o) for o in case["req"]]
+        items = [gens.py_outcome(o) for o in case["req"]]
+        style = case.get("iter_style", "list")
+        if style == "generator":
+            return (x for x in items)           # one-shot iterables are iterables too
+        if style == "iter":
+            return iter(items)
+        if style == "tuple":
+            return tuple(items)
+        return items
     return {gens.py_outcome(o): a for o, a in case["req"]}
 
 
@@ -45,7 +53,8 @@ def gen_request(rng, h):
     if form == "single":
         return {"form": form, "req": pick()}
     if form == "iter":
-        return {"form": form, "req": [pick() for _ in range(rng.randint(0, 4))]}
+        return {"form": form, "req": [pick() for _ in range(rng.randint(0, 4))],
+                "iter_style": rng.choice(["list", "tuple", "generator", "iter"])}
     ks = {}
     for _ in range(rng.randint(0, 4)):
         o = pick()
@@ -68,7 +77,16 @@ def gen_cases(rng, tier):
             cards = [o for o, cnt in deck for _ in range(min(cnt, 3))]
             rng.shuffle(cards)
             extra = [rng.choice(deck)[0]] if rng.random() < 0.5 else []
-            c = {"kind": "draws", "h": deck, "reqs": [{"form": "single", "req": o} for o in cards + extra]}
+            if rng.random() < 0.5:
+                c = {"kind": "draws", "h": deck, "reqs": [{"form": "single", "req": o} for o in cards + extra]}
+            else:
+                # deal in hands of 1-2 cards given as one-shot iterables
+                seq, hands = cards + extra, []
+                while seq:
+                    n = rng.randint(1, 2)
+                    hands.append({"form": "iter", "req": seq[:n], "iter_style": rng.choice(["generator", "iter", "list"])})
+                    seq = seq[n:]
+                c = {"kind": "draws", "h": deck, "reqs": hands}
         elif r == 6:
             c = {"kind": "draw_none", "h": gens.hist(rng, max_faces=5, style="small"), "pick": rng.randint(0, 5)}
         elif r == 7:
